@@ -26,18 +26,22 @@ CTX = types.SimpleNamespace(ctrl=None, world=None)
 
 class Controller:
     """Owns the gates; opens one whenever the event loop is idle (or, in 'fine' mode, after a few iterations)."""
-    def __init__(self, strategy='random', seed=0, script=None, fine=False):
+    def __init__(self, strategy='random', seed=0, script=None, fine=False, instant=()):
         self.waiting = {}      # key (sid, kind) -> future, in arrival order
         self.log = []
         self.rng = random.Random(seed)
         self.strategy = strategy
         self.script = list(script or [])
         self.fine = fine
+        self.instant = instant     # simulators that answer without ever suspending ('all' or a collection of sids)
         self.opened = []
         self.rr = 0
 
     def gate(self, key):
         fut = asyncio.get_event_loop().create_future()
+        if self.instant == 'all' or key[0] in self.instant:
+            fut.set_result(None)       # awaiting a finished future does not yield to the event loop: the request is atomic
+            return fut
         self.waiting[key] = fut
         return fut
 
@@ -206,9 +210,9 @@ class Run:
 
 
 def run_case(case, lazy=True, cache=True, strategy='random', seed=0, script=None, fine=False, rev=False,
-             debug=False, timeout_events=20000) -> Run:
+             debug=False, timeout_events=20000, instant=()) -> Run:
     r = Run()
-    CTX.ctrl = ctrl = Controller(strategy, seed, script, fine)
+    CTX.ctrl = ctrl = Controller(strategy, seed, script, fine, instant)
     try:
         world = build_world(case, cache, rev, debug)
     except Exception as e:     # ScenarioError etc. while connecting
